@@ -208,8 +208,9 @@ def run_e4(case, bound):
         return {"n": 1, "sigs": [], "viol": [], "trivial": 1}
     k = case["k"]
 
-    def bad(clause, cls, detail):
-        viol.append({"clause": clause, "key": f"C18/{clause}/{k}/{cls}", "detail": f"{detail} | input={case}"})
+    def bad(clause, cls, detail, racy=False):
+        viol.append({"clause": clause, "key": f"C18/{clause}/{k}/{cls}", "detail": f"{detail} | input={case}",
+                     "racy": racy})
 
     try:
         ref, fin, conf, loops = S.run_schedule(disp.py_func, mk)
@@ -219,7 +220,8 @@ def run_e4(case, bound):
     n = 1
     if conf:
         c0 = conf[0]
-        bad("iterations-independent", f"{c0['kind']}/{c0['array']}",
+        arr = "kernel-local" if str(c0["array"]).startswith("local") else c0["array"]
+        bad("iterations-independent", f"{c0['kind']}/{arr}",
             f"{len(conf)} conflicting cells, first: array {c0['array']} cell {c0['cell']} {c0['kind']} between "
             f"iterations {c0['iterations']} of loop {c0['epoch']}")
     if case["kind"] == "e4":
@@ -252,7 +254,7 @@ def run_e4(case, bound):
         n += 1
         if not S.same(res, ref) or not S.same(finals, fin):
             bad("compiled-equals-source", f"threads={'1' if nt == 1 else 'n'}",
-                f"compiled kernel with {nt} threads differs from the py_func result")
+                f"compiled kernel with {nt} threads differs from the py_func result", racy=nt > 1)
             break
     numba.set_num_threads(1)
     branches = len({json.dumps(p) for p in case.get("pix", [])}) if "pix" in case else 2
@@ -384,7 +386,7 @@ def run_matrix(case):
                              "key": f"C18/threading-matrix/{nme}/{kk}/parallel={case['parallel']}",
                              "detail": f"pipeline {nme}: product '{kk}' with threads={case['threads']} layer={case['layer']} "
                                        f"parallel={case['parallel']} differs from the reference process (1 thread, "
-                                       f"{ref['_layer']})"})
+                                       f"{ref['_layer']})", "racy": True})
         if got[nme]["inputs"] != "|":
             viol.append({"clause": "inputs-unmodified", "key": f"C18/inputs-modified/{nme}",
                          "detail": f"pipeline {nme} modified its input datasets: {got[nme]['inputs']}"})
